@@ -1,6 +1,7 @@
 import Rangers.Basic.Hex
 import Rangers.Basic.Line
 import Rangers.Model.BlockExec
+import Rangers.Model.ContractPre
 /-!
 Line-protocol driver for C01.  Stateful: a ledger (`St`), the watched addresses and the
 watched escrow slots.  Every op that involves a map-range site is evaluated under three
@@ -17,13 +18,14 @@ ops
   diff <castorIdHex> <count> <workingMiners>
   block <height> <p004> <flags6> <fee> <feeacct> S <p010 0|1> <p019 0|1> <p025Block|x> <castorIdHex> <reward|x> <ntx> tx*
       tx = <hash> <req> <nonce> <typ> <srcStrHex> <src> <feeAddr> <srcNumHex> body
-      body = e | j <datahex> | t <n> (<keyhex> <addr> <amt|x>)* | r <amount|x> <minerIdHex> | a <minerIdHex> <delta>
+      body = e | j <datahex> | t <n> (<keyhex> <addr> <amt|x>)* | r <amount|x> <minerIdHex> | a <minerIdHex> <delta> | p <minerIdHex> <typ> <stake> <hasPk> <hasVrf> <account|-> | c <minerIdHex> <account|->
              | o <ok> <evicted> <msghex> <k> (<addr> <bal> <nonce>)*      (observed effect of an EVM transaction)
       reward = x | <nextHeight> <castor> <share> <np> pairs <nv> pairs | F <totalBits> <rewardBlocks> <castorIdHex> <x | n ids>
   ca <src> <n> (<keyhex> <addr> <amt|x>)*
   radd <n> (<height> <k> (<id> <val>)*)*
   cmove <height>
   reward x | reward <nextHeight> <castor> <share> <np> (<acct> <share>)* <nv> (<acct> <share>)*
+  igas <datahex> <creation 0|1> <p026 0|1>      dcd <gasLimitFieldHex> <p017 0|1>
   sort <flags6> <n> (<hash> <req> <nonce> <srcStrHex> <srcNumHex>)*
 -/
 namespace Rangers.Drive.C01
@@ -48,7 +50,9 @@ def hex20 (n : Nat) : String := toHex (padLeft 20 (natToBE n))
 def dump (d : DS) (s : St) : String :=
   let a := d.watch.map (fun x => hex20 x ++ ":" ++ toString (s.bal x) ++ ":" ++ toString (s.nonce x))
   let e := d.wesc.map (fun (h, i) => toString h ++ ":" ++ hex20 i ++ ":" ++ toString (s.escrow h i))
-  let m := s.miners.map (fun r => toString r.id ++ ":" ++ toString r.typ ++ ":" ++ toString r.stake ++ ":"
+  -- registry in a canonical order (id, type); entries created and removed again inside the block leave nothing behind
+  let recs := (s.miners.filter (fun r => r.inParent || r.alive)).mergeSort (fun a b => a.id < b.id || (a.id == b.id && a.typ ≤ b.typ))
+  let m := recs.map (fun r => toString r.id ++ ":" ++ toString r.typ ++ ":" ++ toString r.stake ++ ":"
     ++ (if r.hasAccount then hex20 r.account else "-") ++ ":" ++ toString r.status ++ ":" ++ (if r.alive then "1" else "0"))
   "st=" ++ ",".intercalate a ++ " esc=" ++ ",".intercalate e ++ " mi=" ++ ",".intercalate m
 
@@ -94,6 +98,18 @@ def body? : List String → Option (Body × List String)
     let amt ← (if a == "x" then some none else (nat? a).map some)
     let id ← hexNat? i
     pure (.refund amt id, r)
+  | "p" :: i :: t :: st :: pk :: vrf :: ac :: r => do
+    let id ← hexNat? i
+    let t ← nat? t
+    let st ← nat? st
+    let pk ← (if pk == "1" then some true else if pk == "0" then some false else none)
+    let vrf ← (if vrf == "1" then some true else if vrf == "0" then some false else none)
+    let ac ← (if ac == "-" then some none else (addr? ac).map some)
+    pure (.apply id t st pk vrf ac, r)
+  | "c" :: i :: ac :: r => do
+    let id ← hexNat? i
+    let ac ← (if ac == "-" then some none else (addr? ac).map some)
+    pure (.changeAccount id ac, r)
   | "a" :: i :: dl :: r => do
     let id ← hexNat? i
     let dl ← nat? dl
@@ -282,7 +298,9 @@ def step (d : DS) (line : String) : DS × String :=
           let run := fun (ρ : Orders) =>
             let res := execBlock ρ env fl hdr (rwf h) (ids h ++ ids 0).eraseDups d.st txs
             ("ev=" ++ ",".intercalate (res.evicted.map hex32) ++ " rc=" ++ showReceipts res.receipts
-              ++ " " ++ dump d res.st ++ " df=" ++ toString (res.st.diff hdr.castor) ++ ":" ++ toString res.st.working, res.st)
+              ++ " " ++ dump d res.st ++ " df=" ++ toString (res.st.diff hdr.castor) ++ ":" ++ toString res.st.working
+              ++ " rr=" ++ (if res.receipts.all (fun r => r.extra == 0) && !txs.any (fun t => isOpaqueTyp t.typ)
+                            then toHex (receiptsRoot h res.receipts) else "-"), res.st)
           match underRhos run with
           | some (o, s) => ({ d with st := s }, o)
           | none => (d, "rho-diff")
@@ -335,6 +353,20 @@ def step (d : DS) (line : String) : DS × String :=
         | some (o, s) => ({ d with st := s }, o)
         | none => (d, "rho-diff")
     | _ => (d, "bad-op")
+  | ["igas", dh, cr, p26] =>
+    match ofHex? dh, nat? cr, nat? p26 with
+    | some data, some cr, some p26 =>
+      (d, match Rangers.Model.ContractPre.intrinsicGas data (cr == 1) (p26 == 1) with
+          | some g => toString g
+          | none => "overflow")
+    | _, _, _ => (d, "bad-op")
+  | ["dcd", fh, p17] =>
+    match ofHex? fh, nat? p17 with
+    | some f, some p17 =>
+      (d, match Rangers.Model.ContractPre.rawGasLimit f (p17 == 1) with
+          | some g => toString g
+          | none => "err")
+    | _, _ => (d, "bad-op")
   | "sort" :: fl :: n :: r =>
     match flags? fl, nat? n with
     | some fl, some n =>
